@@ -215,7 +215,21 @@ def fresh_calc_like(style, adesc):
     return make_calc(style, adesc)[0]
 
 
-def build_simulation(scn, logfile=None):
+def real_criteria_for(expr, ens):
+    """The shipped criteria a user would pair with this entry in this ensemble."""
+    from quansino.mc import criteria as K
+
+    kinds = {l["t"] for l in S.expr_leaves(expr)}
+    if "exch" in kinds:
+        return K.GrandCanonicalCriteria()
+    if "cell" in kinds:
+        return K.IsotensionCriteria() if ens == "Isotension" else K.IsobaricCriteria()
+    if "hmc" in kinds:
+        return K.HamiltonianCanonicalCriteria()
+    return K.CanonicalCriteria()
+
+
+def build_simulation(scn, logfile=None, criteria="scripted", extra_kw=None):
     """Build atoms + driver + table from a scenario description. Returns (mc, atoms, info)."""
     from quansino.mc import canonical, gcmc, isobaric, isotension
 
@@ -223,36 +237,41 @@ def build_simulation(scn, logfile=None):
     calc, params = make_calc(scn["calc"], scn["atoms"])
     atoms.calc = calc
     ens = scn["ensemble"]
-    kw = {"seed": scn["seed"], "max_cycles": 1}
+    kw = {"seed": scn["seed"], "max_cycles": scn.get("max_cycles", 1)}
     if logfile is not None:
         kw["logfile"] = logfile
+    kw.update(extra_kw or {})
+    T = scn.get("temperature", 300.0)
     with warnings.catch_warnings():
         warnings.simplefilter("ignore")
         if ens == "Canonical":
-            mc = canonical.Canonical(atoms, temperature=300.0, **kw)
+            mc = canonical.Canonical(atoms, temperature=T, **kw)
         elif ens == "HamiltonianCanonical":
-            mc = canonical.HamiltonianCanonical(atoms, temperature=300.0, **kw)
+            mc = canonical.HamiltonianCanonical(atoms, temperature=T, **kw)
         elif ens == "Isobaric":
-            mc = isobaric.Isobaric(atoms, temperature=300.0, pressure=0.01, **kw)
+            mc = isobaric.Isobaric(atoms, temperature=T, pressure=0.01, **kw)
         elif ens == "Isotension":
-            mc = isotension.Isotension(atoms, temperature=300.0, pressure=0.01, external_stress=np.eye(3) * 0.02, **kw)
+            mc = isotension.Isotension(atoms, temperature=T, pressure=0.01, external_stress=np.array(scn.get("external_stress", (np.eye(3) * 0.02).tolist()), dtype=float), **kw)
         else:
             sp = scn["species"]
             template = Atoms(sp["symbols"], positions=sp["positions"])
             if "momenta" in sp:
                 template.set_momenta(sp["momenta"])
-            mc = gcmc.GrandCanonical(atoms, exchange_atoms=template, temperature=300.0, chemical_potential=0.0,
+            mc = gcmc.GrandCanonical(atoms, exchange_atoms=template, temperature=T, chemical_potential=scn.get("mu", 0.0),
                                      number_of_exchange_particles=scn.get("n_exchange", 0), **kw)
         cache = {}
         crits = []
         for i, e in enumerate(scn["entries"]):
             mv = S.build_move(e, cache if scn.get("share_cache") else {})
-            cr = ScriptedCriteria()
-            mc.add_move(mv, criteria=cr, name=f"e{i}")
+            cr = ScriptedCriteria() if criteria == "scripted" else real_criteria_for(e, ens)
+            kwm = {}
+            if scn.get("table"):
+                kwm = dict(zip(("interval", "probability", "minimum_count"), scn["table"][i]))
+            mc.add_move(mv, criteria=cr, name=f"e{i}", **kwm)
             crits.append(cr)
         if "alias_of" in scn:
             # the same move object listed under a second name
-            cr = ScriptedCriteria()
+            cr = ScriptedCriteria() if criteria == "scripted" else real_criteria_for(scn["entries"][scn["alias_of"]], ens)
             mc.add_move(mc.moves[f"e{scn['alias_of']}"].move, criteria=cr, name=f"e{len(scn['entries'])}")
             crits.append(cr)
     return mc, atoms, {"criteria": crits, "calc_params": params}
